@@ -312,6 +312,11 @@ impl Tuple {
 }
 
 fn gen_tuple(c: &mut Case, k: usize, n: usize, presort: bool) -> Result<Tuple, Fail> {
+    gen_tuple_cfg(c, k, n, presort, false)
+}
+
+/// `flat`: leaf types only (used for the long inputs that exercise the bounded-heap top-k path with a deep heap)
+fn gen_tuple_cfg(c: &mut Case, k: usize, n: usize, presort: bool, flat: bool) -> Result<Tuple, Fail> {
     let mut cfg = TypeCfg::all();
     cfg.depth = 2;
     let vc = vcfg();
@@ -322,7 +327,7 @@ fn gen_tuple(c: &mut Case, k: usize, n: usize, presort: bool) -> Result<Tuple, F
     let mut inline = vec![];
     for _ in 0..k {
         // leading columns with few distinct values so that later columns decide
-        let ty = if c.tape.chance(140) { gen_type(&mut c.tape, &TypeCfg::flat()) } else { gen_type(&mut c.tape, &cfg) };
+        let ty = if flat || c.tape.chance(140) { gen_type(&mut c.tape, &TypeCfg::flat()) } else { gen_type(&mut c.tape, &cfg) };
         let ty = known(c, ty);
         let mut col = gen_ord_column(&mut c.tape, &ty, true, n, &vc);
         inline.push(inline_views(&mut c.tape, &ty, &mut col));
@@ -367,15 +372,35 @@ fn describe_tuple(c: &mut Case, t: &Tuple, extra: serde_json::Value) {
 
 /// (3) lexsort_to_indices / lexsort / LexicographicalComparator / FixedLexicographicalComparator
 fn sub_lexsort(c: &mut Case) -> CaseResult {
-    let k = 1 + c.tape.below(4);
-    let n = match c.tape.below(8) {
+    let mut k = 1 + c.tape.below(4);
+    let size = c.tape.below(8);
+    let n = match size {
         0 => c.tape.below(3),
         1 | 2 => 20 + c.tape.below(if c.tier == Tier::Thorough { 120 } else { 50 }),
+        // long inputs: the bounded heap of the top-k path gets several levels deep (limit up to rows/10)
+        3 => 70 + c.tape.below(if c.tier == Tier::Thorough { 1500 } else { 500 }),
         _ => c.tape.below(24),
     };
-    let t = gen_tuple(c, k, n, false)?;
+    if size == 3 {
+        k = 2 + c.tape.below(2);
+        c.class("rows>=70");
+    }
+    let t = gen_tuple_cfg(c, k, n, false, size == 3)?;
     // small limits relative to the row count take the bounded-heap path (limit <= rows/10)
-    let limit = if n >= 20 && c.tape.bool() { Some(1 + c.tape.below((n / 10).max(1))) } else { gen_limit(&mut c.tape, n) };
+    let limit = if n >= 20 && (size == 3 || c.tape.bool()) {
+        match c.tape.below(6) {
+            0 => Some(n / 10),
+            1 => Some(n / 10 + 1),
+            _ => Some(1 + c.tape.below((n / 10).max(1))),
+        }
+    } else {
+        gen_limit(&mut c.tape, n)
+    };
+    if let Some(l) = limit {
+        if l >= 7 && l <= n / 10 && k >= 2 {
+            c.class("path:topk-heap-depth>=3");
+        }
+    }
     describe_tuple(c, &t, json!({"limit": limit}));
     c.class(format!("columns:{}", k));
     if let Some(l) = limit {
@@ -1059,7 +1084,7 @@ fn main() {
     .sub(Sub::new("grid", 0, 0, sub_grid).enumerate(ngrid * 20, ngrid * 200))
     .sub(Sub::new("comparator", 60000, 600000, sub_comparator).tape(256, 8000).require(&["family:list", "family:struct", "family:dictionary", "family:runend", "family:float", "family:view", "family:union", "family:map", "family:fixedlist", "family:listview"]))
     .sub(Sub::new("sort", 120000, 1200000, sub_sort).tape(256, 8000).require(&["family:list", "family:dictionary", "family:runend", "family:float", "family:view", "family:fixedbinary", "family:fixedlist", "family:listview", "view:no-buffers", "view:buffers", "limit:<len", "limit:>len", "limit:none"]))
-    .sub(Sub::new("lexsort", 50000, 500000, sub_lexsort).tape(256, 10000).require(&["columns:1", "columns:4", "path:topk-heap", "mixed-options"]))
+    .sub(Sub::new("lexsort", 50000, 500000, sub_lexsort).tape(256, 24000).require(&["columns:1", "columns:4", "path:topk-heap", "path:topk-heap-depth>=3", "mixed-options"]))
     .sub(Sub::new("rank", 60000, 600000, sub_rank).tape(128, 6000).require(&["family:float", "family:bytes", "family:view", "family:bool", "family:interval"]))
     .sub(Sub::new("partition", 50000, 500000, sub_partition).tape(256, 10000).require(&["columns:1", "columns:3"]))
     .sub(Sub::new("compare", 120000, 1200000, sub_compare).tape(256, 8000).require(&["array-array", "array-scalar", "scalar-array", "scalar-scalar", "sides:Dict/Plain", "sides:Plain/Dict", "sides:Ree/Ree", "leaf:view", "leaf:float", "leaf:fixedbinary", "view:no-buffers"]))
